@@ -17,24 +17,25 @@ LEVEL = "model_checking"
 def run(ctx):
     quick = ctx.tier == "quick"
     rnd = random.Random(ctx.seed)
+    faulty = lambda c: c["cfg"]["fault"]["k"] != "none" or "close" in c["cfg"]["script"] or len(c["cfg"]["script"]) < 3
     if quick:
-        rpipe.design(ctx, [("MCRP_q1.cfg", "safety: n<=1 chunks, all faults, scripts<=2 + long, bounds 1/2, pool, fd", True),
-                           ("MCRP_live.cfg", "liveness (termination under weak fairness), n<=1", False)])
+        mcs = [("MCRP_q1.cfg", "safety: n<=1 chunks, all faults, scripts<=2 + long, bound 1, pool, fd", True),
+               ("MCRP_live.cfg", "liveness (termination under weak fairness), n<=1", False)]
     else:
-        rpipe.design(ctx, [("MCRP_small.cfg", "safety: n<=2, scripts<=3 + long, bounds 1/2, pool", True),
-                           ("MCRP_quick.cfg", "safety: n<=2, scripts<=2 + long, bounds 1/2, pool, fd", False),
-                           ("MCRP_liveT.cfg", "liveness (termination under weak fairness), n<=2", False)], workers_each=5)
+        mcs = [("MCRP_small.cfg", "safety: n<=2, scripts<=3 + long, bounds 1/2, pool", True),
+               ("MCRP_quick.cfg", "safety: n<=2, scripts<=2 + long, bounds 1/2, pool, fd", False),
+               ("MCRP_liveT.cfg", "liveness (termination under weak fairness), n<=2", False)]
+    _, mock, mockfd, pbf = rpipe.parallel(lambda: rpipe.design(ctx, mcs, workers_each=4),
+                                          lambda: rpipe.export(ctx, "mock"), lambda: rpipe.export(ctx, "mockfd"),
+                                          lambda: rpipe.export(ctx, "realpbf"))
     cases = []
     nseeds = 2 if quick else 5
-    faulty = lambda c: c["cfg"]["fault"]["k"] != "none" or "close" in c["cfg"]["script"] or len(c["cfg"]["script"]) < 3
-    mock = [c for c in rpipe.export(ctx, "mock") if faulty(c)]
-    for i, c in enumerate(rpipe.sample(mock, 220 if quick else 4000, rnd)):
+    for i, c in enumerate(rpipe.sample([c for c in mock if faulty(c)], 160 if quick else 4000, rnd)):
         cases.append(rpipe.mk_case(i, "mock", c, rnd, nseeds))
-    mockfd = [c for c in rpipe.export(ctx, "mockfd") if faulty(c)]
-    for i, c in enumerate(rpipe.sample(mockfd, 80 if quick else 1500, rnd)):
+    for i, c in enumerate(rpipe.sample([c for c in mockfd if faulty(c)], 60 if quick else 1500, rnd)):
         cases.append(rpipe.mk_case(i, "mockfd", c, rnd, nseeds))
-    pbf = [c for c in rpipe.export(ctx, "realpbf") if faulty(c) and rpipe.mask_of(c["cfg"])]
-    for i, c in enumerate(rpipe.sample(pbf, 100 if quick else 1500, rnd)):
+    pbf = [c for c in pbf if faulty(c) and rpipe.mask_of(c["cfg"]) and rpipe.literal_reads_ok(c)]
+    for i, c in enumerate(rpipe.sample(pbf, 80 if quick else 1500, rnd)):
         cases.append(rpipe.mk_case(i, "realpbf", c, rnd, nseeds, format="pbf", R=rnd.choice([3, 40]),
                                    mask=rpipe.mask_of(c["cfg"]), meta=True, single=False))
     nexec, nvalid = rpipe.run_cases(ctx, cases)
